@@ -215,7 +215,8 @@ def merge(pid, chk, tier, seed, results, scratch, t_start, build_s, shards):
                 bounds[k] = v
         for s in (r.get("scenarios") or []):
             a = scen.setdefault(s["name"], {"name": s["name"], "P": s.get("P"), "T": s.get("T"), "N": s.get("N"), "D": s.get("D"), "executions": 0, "transitions": 0,
-                                            "states": 0, "exhaustive_within_bound": True, "distinct_outcomes": set(), "max_choice_points": 0})
+                                            "states": 0, "exhaustive_within_bound": True, "distinct_outcomes": set(), "max_choice_points": 0,
+                                            "level": s.get("level", 0), "required": s.get("required", True)})
             a["executions"] += s["executions"]
             a["transitions"] += s["transitions"]
             a["states"] += s["states"]
@@ -237,6 +238,20 @@ def merge(pid, chk, tier, seed, results, scratch, t_start, build_s, shards):
         ev["states"] = len(u)
     for a in scen.values():
         a["distinct_outcomes"] = len(a["distinct_outcomes"])
+    if any(a.get("level", 0) != 0 for a in scen.values()):
+        # iterative bounding: per scenario, the deepest pass every shard completed
+        deepest = {}
+        for a in sorted(scen.values(), key=lambda a: a.get("level", 0)):
+            base = a["name"].split(" [bounds")[0]
+            d = deepest.setdefault(base, {"completed": None, "partial": []})
+            b = {"P": a["P"], "T": a["T"], "N": a.get("N"), "D": a.get("D"), "executions": a["executions"]}
+            if a["exhaustive_within_bound"]:
+                d["completed"] = b
+            else:
+                d["partial"].append(b)
+        bounds["iterative_bounding"] = deepest
+        notes.insert(0, "iterative bounding: 'exhaustive' refers to the required pass of every scenario (one deviation below the stated thorough bounds); "
+                        "bounds.iterative_bounding lists the deepest pass completed in every shard and the passes cut by the budget, which are not counted as covered")
     kf = known_findings()
     known = {f["sig"]: f for f in kf if f.get("property") == pid and f.get("status") == "known"}
     new, known_hit = [], []
@@ -292,7 +307,8 @@ def merge(pid, chk, tier, seed, results, scratch, t_start, build_s, shards):
     print("%s tier=%s executions=%d states=%d transitions=%d outcome_classes=%d exhaustive=%s wall=%.1fs (build %.1fs)" % (
         pid, tier, ev["evaluations"], ev["states"], ev["transitions"], len(outcomes), exhaustive, time.time() - t_start, build_s))
     for a in cov["scenarios"]:
-        print("  scenario %-40s P=%s T=%s N=%s D=%s execs=%-9d outcomes=%-4d exhaustive=%s" % (a["name"], a["P"], a["T"], a.get("N"), a.get("D"), a["executions"], a["distinct_outcomes"], a["exhaustive_within_bound"]))
+        print("  scenario %-40s P=%s T=%s N=%s D=%s execs=%-9d outcomes=%-4d %s" % (a["name"], a["P"], a["T"], a.get("N"), a.get("D"), a["executions"], a["distinct_outcomes"],
+              "exhaustive" if a["exhaustive_within_bound"] else ("PARTIAL (budget)" + ("" if a.get("required", True) else ", optional deeper pass"))))
     for l in lines:
         print(l)
     sys.stdout.flush()
